@@ -57,9 +57,57 @@ def build(inp, seed):
     return corpus.build(inp['d'], seed)
 
 
+def main_two_files(case, ctx, acc):
+    """propka.run.main with two structures and one titrate-only list: entries that name nothing in the first file must still
+    select their residues in the second (and vice versa); each file's result equals its single run with the same list."""
+    import io
+    import os
+    import sys
+    import propka.run
+    lib = gen.library()
+    fa = gen.to_text(lib.window('3SGB', 'I', case['a'], 6))
+    fb = gen.to_text(lib.window('3SGB', 'I', case['b'], 6))
+    ra0 = pk.record(pk.run(fa))
+    rb0 = pk.record(pk.run(fb))
+
+    def rep(r):
+        out = []
+        for g in r['confs']['AVR']['groups']:
+            k = reskey_of(g)
+            if k not in out:
+                out.append(k)
+        return out
+    entries = rep(ra0)[:2] + rep(rb0)[:2] + [('I', 9990, ' ')]
+    arg = arg_of(entries)
+    names = ['first_%d.pdb' % case['a'], 'second_%d.pdb' % case['b']]
+    for nm, tx in zip(names, (fa, fb)):
+        with open(nm, 'w') as fh:
+            fh.write(tx)
+    old, saved = sys.argv, sys.stdout
+    sys.argv = ['propka3', names[1], '-f', names[0], '-i', arg, '-q']    # main processes -f files first, the positional one last
+    sys.stdout = io.StringIO()
+    try:
+        propka.run.main()
+    finally:
+        sys.argv, sys.stdout = old, saved
+    acc.case(nontrivial_key=jhash(case), outcome='main-two-files')
+    for nm, tx in zip(names, (fa, fb)):
+        with open(nm[:-4] + '.pka') as fh:
+            got = pk.parse_pka(fh.read())
+        single = pk.run(tx, ('-i', arg), name='x.pdb', write=True)
+        want = pk.parse_pka(single._pka_text)
+        a = [(r['label'], r['pka']) for r in got['summary']]
+        b = [(r['label'], r['pka']) for r in want['summary']]
+        if a != b:
+            acc.viols.append(Viol(case, 'titrate-only', 'main-two-files/list-not-applied-per-file',
+                                  '%s: summary %s, single run with the same list %s' % (nm, a, b), inputs=dict(first=fa, second=fb, opts=['-i', arg])))
+        os.unlink(nm[:-4] + '.pka')
+
+
 def plan(tier, seed):
     ins = inputs(tier)
     shards = [ins[i:i + 6] for i in range(0, len(ins), 6)]
+    shards += [[dict(src='main', a=a, b=b)] for a, b in ((7, 27), (27, 7), (17, 45), (45, 17))]
     return dict(shards=shards, exhaustive=True,
                 rule=('inputs: 4/6-residue windows of 4 proteins, docked pairs (5x10 kinds), clusters, 9 A cut-outs, twin/blank-chain '
                       'streams; lists: all subsets of the reportable residues when there are <= %d of them, else singletons, '
@@ -81,6 +129,8 @@ def arg_of(keys):
 
 
 def run_case(case, ctx, acc):
+    if case.get('src') == 'main':
+        return main_two_files(case, ctx, acc)
     s = build(case, ctx.seed)
     if s is None:
         acc.skipped += 1
@@ -174,6 +224,14 @@ def run_case(case, ctx, acc):
                         return sorted(out)
                     # unlisted residues must still act as hydrogen-bond partners: nothing the default run has may be lost
                     # (a list can only remove covalent couplings, so it can add pairs the default run skipped, never drop one)
+                    # iteratively treated pairs of equal charge sign (acid-acid, base-base) always book the hydrogen bond on both
+                    # groups, whatever the pKa values: the partner must not disappear when it is unlisted
+                    for pkey, lab, val in g0['dets']['sidechain']:
+                        p0 = g0s.get(pkey)
+                        if (p0 is not None and params.interaction_matrix.get_value(g0['type'], p0['type']) == 'I'
+                                and g0['charge'] * p0['charge'] > 0 and reskey_of(p0) not in listed
+                                and not any(x[0] == pkey for x in g['dets']['sidechain'])):
+                            v.append(('hbond-partner-lost/sidechain-I-same-charge', '%s lost its hydrogen bond with unlisted %s (default %r)' % (k, pkey, val)))
                     lost = [x for x in nside(g0, g0s) if x not in nside(g, gs)]
                     if lost:
                         v.append(('hbond-partner-lost/sidechain-N', '%s lost %r (default %r)' % (k, lost, nside(g0, g0s))))
